@@ -19,6 +19,7 @@ package main
 
 import (
 	"fmt"
+	"os"
 	"strconv"
 	"strings"
 
@@ -80,7 +81,31 @@ func c01RExp(sb *strings.Builder, e syntax.Exp) error {
 		}
 		sb.WriteString(")")
 	case *syntax.RefExp:
-		sb.WriteString("(ref " + t.Id + c01Path(t.OutputId) + ")")
+		sb.WriteString("(ref " + t.Id)
+		// known fork indices, sorted by call id like the driver
+		var fks [][2]string
+		for call, ix := range t.Forks {
+			if call == nil || ix == nil {
+				continue
+			}
+			if k := ix.IndexSource(); k != nil {
+				continue // not known until run time
+			}
+			if ix.Mode() == syntax.ModeMapCall {
+				fks = append(fks, [2]string{call.Id, "(k " + c01hx(ix.MapKey()) + ")"})
+			} else {
+				fks = append(fks, [2]string{call.Id, fmt.Sprintf("(i %d)", ix.ArrayIndex())})
+			}
+		}
+		for i := 1; i < len(fks); i++ {
+			for j := i; j > 0 && fks[j][0] < fks[j-1][0]; j-- {
+				fks[j], fks[j-1] = fks[j-1], fks[j]
+			}
+		}
+		for _, e := range fks {
+			sb.WriteString(" (fk " + e[0] + " " + e[1] + ")")
+		}
+		sb.WriteString(c01Path(t.OutputId) + ")")
 	case *syntax.SplitExp:
 		id := "?"
 		if t.Call != nil {
@@ -129,7 +154,11 @@ func c01CGNodes(sb *strings.Builder, node syntax.CallGraphNode) error {
 		}
 		return nil
 	}
-	sb.WriteString(" (node " + node.GetFqid())
+	sb.WriteString(" (node " + node.GetFqid() + " (forks")
+	for _, fr := range node.ForkRoots() {
+		sb.WriteString(" " + fr.Call().Id)
+	}
+	sb.WriteString(")")
 	ins := node.ResolvedInputs()
 	for _, p := range node.Callable().GetInParams().List {
 		rb := ins[p.Id]
@@ -256,7 +285,7 @@ func c01StaticCheck(c *Ctx, cases []c01StaticCase, stream string, reported map[s
 	for i, cs := range cases {
 		rep := c01ParseStatic(replies[i])
 		if rep.skip {
-			r.hist("static:" + stream + ":not-plain")
+			r.hist("static:" + stream + ":" + strings.TrimSpace(replies[i]))
 			continue
 		}
 		nodes := strings.Count(rep.static, " (node ")
@@ -268,7 +297,7 @@ func c01StaticCheck(c *Ctx, cases []c01StaticCase, stream string, reported map[s
 				Broken: "C01.static"})
 			continue
 		}
-		r.hist("static:" + stream + ":plain")
+		r.hist("static:" + stream + ":covered by the static model (plain or statically sized map calls of stages)")
 		if rep.frag {
 			r.hist("static:" + stream + ":inside-proved-fragment")
 		} else {
@@ -339,4 +368,22 @@ func c01StaticCheck(c *Ctx, cases []c01StaticCase, stream string, reported map[s
 			}
 		}
 	}
+}
+
+// C01CG: debugging entry: print the real call graph rendering and the model's static phase
+// for one program (env C01_MRO).
+func init() {
+	register("C01CG", func(c *Ctx) {
+		b, err := os.ReadFile(os.Getenv("C01_MRO"))
+		if err != nil {
+			fatal("%v", err)
+		}
+		prog, cg, err := c01CompileStatic(string(b))
+		fmt.Fprintln(os.Stderr, "err:", err)
+		fmt.Fprintln(os.Stderr, "compiler:", strings.ReplaceAll(cg, " (node ", "\n  (node "))
+		if prog != "" && c.Drv != nil {
+			rep := c.Drv.Ask("C01.static", prog, "-")
+			fmt.Fprintln(os.Stderr, "model:   ", strings.ReplaceAll(rep, " (node ", "\n  (node "))
+		}
+	})
 }
